@@ -44,6 +44,11 @@ type Task struct {
 	ID     int
 	state  int // 0 runnable, 1 blocked on a mutex, 2 done, 4 waiting for a channel operation to become possible
 	stamp  uint64
+	// exact says whether the polled wait models the real operation exactly
+	// (buffered channel, condition variable) or only approximately
+	// (unbuffered channel, select: a rendezvous between two polling parties
+	// never happens)
+	exact bool
 	waitOn unsafe.Pointer
 	prio   int
 	fn     func()
@@ -81,6 +86,9 @@ type Sched struct {
 
 	Deadlock     bool
 	DeadlockWait [maxTasks]unsafe.Pointer
+	// DeadlockUncertain: some of the deadlocked tasks wait in an operation the
+	// polling model only approximates, so the deadlock may be an artefact
+	DeadlockUncertain bool
 
 	D      Digest // everything
 	SchedD Digest // schedule signature: sync events + poll counts between them
@@ -319,8 +327,9 @@ func (s *Sched) resume(next int) {
 // is a deadlock.
 //
 //go:norace
-func (s *Sched) chanWait() {
+func (s *Sched) chanWait(exact bool) {
 	t := s.tasks[s.cur]
+	t.exact = exact
 	s.ChanWaits++
 	s.log(EvBlock, 1)
 	t.state = 4
@@ -403,6 +412,9 @@ func (s *Sched) deadlock() {
 	s.Deadlock = true
 	for i := 0; i < s.n; i++ {
 		s.DeadlockWait[i] = s.tasks[i].waitOn
+		if s.tasks[i].state == 4 && !s.tasks[i].exact {
+			s.DeadlockUncertain = true
+		}
 	}
 	s.cur = -1
 	open(&s.mainGate)
@@ -659,7 +671,7 @@ func (c *Cond) Wait() {
 		if c.gen != gen {
 			break
 		}
-		s.chanWait()
+		s.chanWait(true)
 	}
 	c.L.Lock()
 }
